@@ -458,3 +458,41 @@ func (s *Snap) UnbTotal() map[string]math.Int {
 	}
 	return m
 }
+
+// Summary renders the decoded state compactly (replay diagnostics).
+func (s *Snap) Summary() string {
+	var b bytes.Buffer
+	fmt.Fprintf(&b, "t=+%s h=%d flag=%v custody=%s fee=%s pool=%s\n", s.Time.Sub(Epoch), s.Height, s.Flag, s.Custody, s.Fee, s.Pool)
+	for _, d := range s.Denoms {
+		a := s.Assets[d]
+		fmt.Fprintf(&b, "    asset %s T=%s S=%s w=%s take=%s\n", d, a.TotalTokens, a.TotalValidatorShares, a.RewardWeight, a.TakeRate)
+	}
+	for i, v := range s.Vals {
+		for d, sh := range v.ValShares {
+			ds := v.DelShares[d]
+			fmt.Fprintf(&b, "    v%d %s valShares=%s delShares=%s tokens=%s\n", i, d, sh.FloatString(18), RatF18(ds), RatF(v.Tokens[d]))
+		}
+		for d, ds := range v.DelShares {
+			if _, ok := v.ValShares[d]; !ok {
+				fmt.Fprintf(&b, "    v%d %s valShares=0 delShares=%s\n", i, d, ds.FloatString(18))
+			}
+		}
+	}
+	for _, p := range s.Pos {
+		fmt.Fprintf(&b, "    pos %s shares=%s value=%s reported=%s\n", p.Key(), p.Shares.FloatString(18), RatF(p.Value), p.Reported)
+	}
+	for _, u := range s.Unb {
+		fmt.Fprintf(&b, "    unb %s amt=%s\n", u.Key(), u.Amt)
+	}
+	for _, r := range s.Redels {
+		fmt.Fprintf(&b, "    red d%d v%d->v%d %s %s @+%s\n", r.D, r.Src, r.Dst, r.Denom, r.Amt, r.Completion.Sub(Epoch))
+	}
+	return b.String()
+}
+
+func RatF18(r *big.Rat) string {
+	if r == nil {
+		return "nil"
+	}
+	return r.FloatString(18)
+}
